@@ -218,4 +218,95 @@ def setPendingTree (v : Bool) : Tree MNode → Nat → Tree MNode
     else .node l n (setPendingTree v r (k - l.size - 1))
 
 end MemHdr
+
+/-! ### histories -/
+
+inductive Op where
+  | write (off : Nat) (data : List UInt8)
+  | read (off len : Nat)
+  | contig (s e : Nat)
+  | free (target : Nat)
+  | block (loc : Nat)
+  | nodeGet (k : Nat)         -- `NodeGet()` on the k-th node in offset order (sets write_pending)
+  | writeComplete (k : Nat)   -- `memNodeWriteComplete()` on the k-th node (clears write_pending)
+  | freeContent
+deriving Repr, DecidableEq
+
+/-- outcome of flipping `write_pending` through the harness -/
+inductive PendRes where
+  | done | refused | noSuchNode
+deriving Repr, DecidableEq
+
+inductive Res where
+  | wrote                       -- write() returned true
+  | fatal                       -- fatal_dump()
+  | bytes (b : List UInt8)      -- copy() deposited these bytes
+  | empty                       -- copy() is not called on an object without nodes (the real code asserts there)
+  | flag (b : Bool)
+  | lowest (n : Nat)
+  | block (r : Option (Nat × Nat))
+  | pend (r : PendRes)
+  | unit
+deriving Repr, DecidableEq
+
+def nth? : List MNode → Nat → Option MNode
+  | [], _ => none
+  | a :: _, 0 => some a
+  | _ :: r, k + 1 => nth? r k
+
+/-- one call of the harness -/
+def step (m : MemHdr) : Op → Except Fault (MemHdr × Res)
+  | .write off data =>
+    match m.write off data with
+    | .error f => .error f
+    | .ok (m', none) => .ok (m', .fatal)
+    | .ok (m', some _) => .ok (m', .wrote)
+  | .read off len =>
+    if m.nodes.elements = 0 then .ok (m, .empty)
+    else
+      match m.copy off len with
+      | .error f => .error f
+      | .ok (m', none) => .ok (m', .fatal)
+      | .ok (m', some b) => .ok (m', .bytes b)
+  | .contig s e =>
+    match m.hasContigousContentRange s e with
+    | .error f => .error f
+    | .ok (m', b) => .ok (m', .flag b)
+  | .free target =>
+    match m.freeDataUpto target with
+    | .error f => .error f
+    | .ok (m', lo) => .ok (m', .lowest lo)
+  | .block loc =>
+    match m.getBlock loc with
+    | (m', none) => .ok (m', .block none)
+    | (m', some n) => .ok (m', .block (some (n.offset, n.data.length)))
+  | .nodeGet k =>
+    match nth? m.nodes.head.inorder k with
+    | none => .ok (m, .pend .noSuchNode)
+    | some n =>
+      if n.pending then .ok (m, .pend .refused)
+      else .ok ({ m with nodes := { m.nodes with head := MemHdr.setPendingTree true m.nodes.head k } }, .pend .done)
+  | .writeComplete k =>
+    match nth? m.nodes.head.inorder k with
+    | none => .ok (m, .pend .noSuchNode)
+    | some n =>
+      if !n.pending then .ok (m, .pend .refused)
+      else .ok ({ m with nodes := { m.nodes with head := MemHdr.setPendingTree false m.nodes.head k } }, .pend .done)
+  | .freeContent => .ok (m.freeContent, .unit)
+
+/-- run a history: the result of every call with the state after it; after every call the harness also calls
+`endOffset()` (which carries the `inmem_hi` assert) -/
+def run : MemHdr → List Op → Except Fault (List (Res × MemHdr))
+  | _, [] => .ok []
+  | m, op :: rest =>
+    match step m op with
+    | .error f => .error f
+    | .ok (m', res) =>
+      match m'.endOffset with
+      | .error f => .error f
+      | .ok _ =>
+        match run m' rest with
+        | .error f => .error f
+        | .ok os => .ok ((res, m') :: os)
+
 end SquidModel.MemHdr
